@@ -42,7 +42,8 @@ func (t *tokens) s(prefix string) string { t.n++; return fmt.Sprintf("%s%d", pre
 func (t *tokens) num() string            { t.n++; return strconv.Itoa(70000 + t.n) }
 
 var sysNames = []string{"open", "openat", "execve", "connect", "accept", "bind", "mount", "unlink", "rename", "chmod", "setuid", "kill", "ptrace",
-	"socket", "sendto", "recvfrom", "mknod", "symlink", "chown", "init_module", "setxattr", "umount2", "clock_settime", "sethostname"}
+	"socket", "sendto", "recvfrom", "mknod", "symlink", "chown", "init_module", "setxattr", "umount2", "clock_settime", "sethostname",
+	"mkdir", "mkdirat", "renameat", "renameat2", "link", "linkat", "rmdir", "creat", "truncate"}
 
 var modeChoices = []uint32{0o100644, 0o100755, 0o104755, 0o040755, 0o041777, 0o020620, 0o060660, 0o120777, 0o140755, 0o010644}
 
